@@ -126,6 +126,9 @@ func (e *c13Env) context(data int) *plush.Context {
 			return `[<%= a %><%= b %><%= c %>]`, nil
 		case "lay":
 			return `L(<%= yield %>)`, nil
+		case "pdyn":
+			// the application's feeder may serve different partial text to different contexts
+			return fmt.Sprintf("dyn%d:<%%= d %%>", data), nil
 		}
 		return pf(name)
 	})
@@ -176,6 +179,7 @@ func c13Family() []string {
 		`<% let a = [] %><%= len(a) %>|<% let b = a + d %><%= len(b) %>|<%= len(a) %>`,
 		`<% let h = {"k": []} %><% h["k"] = h["k"] + 1 %><%= len(h["k"]) %>`,
 		`<% let f = fn(a, b) { return a } %><% let p = f.Parameters %><% p[0] = p[1] %><%= f("x", "y") %>`,
+		`<%= partial("pdyn") %>`,
 		`<% let f = fn(a) { return a } %><% let b = f.Block %><%= f("x") %>`,
 		"<%= d %> <% let = 3 %> x <%= 1 + %>",
 		`<%= if (d == 0 { %>x<% } %>`,
@@ -228,12 +232,12 @@ func init() {
 			return s
 		},
 		Run:  c13Run,
-		Rule: "programs: a 35-template corpus covering every construct + a family of hash literals (1..4 entries, identifier/string/duplicate keys, side-effecting values), map loops, data maps, method calls on receivers of two dynamic types, empty array/hash literals that are kept and written to, failing templates and templates that do not parse. (paths) every program x 2 data sets: fresh parse, 3 repeated executions of one parsed template, Clone, cache cold, cache warm, cache off again — all (out, err, side-effect log) equal; deep structural hash (reflection over every field, cycle-safe) of the parsed program equal before and after every execution. (env) every map-iteration call made during an execution is an environment choice point (runtime overlay): all single deviations (two in thorough) from the default order give the same (out, err, log); for-over-map output is compared as a multiset. (hist) explicit enumeration of histories over {fresh parse+exec, exec of a long-lived template, Clone+exec, Render through the cache, toggle CacheEnabled, CacheSet} x 5 templates (ok with an empty hash literal that is written to, failing inside a block on line 3, failing at top level, method call, one that does not parse) x 2 data sets, from a cold and a warm cache; after every operation the result equals the pristine reference for (text, data), every live template's program hash is unchanged and a cached template was parsed from its key. Non-trivial: histories with >=2 operations / programs with a map or side effect.",
+		Rule: "programs: a 35-template corpus covering every construct + a family of hash literals (1..4 entries, identifier/string/duplicate keys, side-effecting values), map loops, data maps, method calls on receivers of two dynamic types, empty array/hash literals that are kept and written to, failing templates and templates that do not parse. (paths) every program x 2 data sets: fresh parse, 3 repeated executions of one parsed template, Clone, cache cold, cache warm, cache off again — all (out, err, side-effect log) equal; deep structural hash (reflection over every field, cycle-safe) of the parsed program equal before and after every execution. (env) every map-iteration call made during an execution is an environment choice point (runtime overlay): all single deviations (two in thorough) from the default order give the same (out, err, log); for-over-map output is compared as a multiset. (hist) explicit enumeration of histories over {fresh parse+exec, exec of a long-lived template, Clone+exec, Render through the cache, toggle CacheEnabled, CacheSet} x 6 templates (a partial whose feeder text depends on the context, ok with an empty hash literal that is written to, failing inside a block on line 3, failing at top level, method call, one that does not parse) x 2 data sets, from a cold and a warm cache; after every operation the result equals the pristine reference for (text, data), every live template's program hash is unchanged and a cached template was parsed from its key. Non-trivial: histories with >=2 operations / programs with a map or side effect.",
 		Bound: func(th bool) string {
 			if th {
-				return "histories of length <=4 over the full 47-operation alphabet; all pairs of map-order deviations"
+				return "histories of length <=4 over the full 56-operation alphabet; all pairs of map-order deviations"
 			}
-			return "histories of length <=3 over the full 47-operation alphabet; all single map-order deviations"
+			return "histories of length <=3 over the full 56-operation alphabet; all single map-order deviations"
 		},
 	})
 }
@@ -246,6 +250,7 @@ var c13Templates = []string{
 	`<%= nope %>`,
 	`<%= animal.Name() %>`,
 	"ok <%= d %>\n<% let = 3 %> tail <%= 1 + %>", // does not parse
+	`<%= partial("pdyn") %>|<%= partial("pd", {"a": d, "b": 2, "c": 3}) %>`,
 }
 
 type c13Op struct {
@@ -405,8 +410,24 @@ func c13Run(t *engine.T, shard string) {
 				return
 			}
 			for _, o := range ops {
+				if !t.Thorough && len(h)+1 < maxLen && o.d != 0 {
+					continue // quick tier: only the last operation of a history varies the data set
+				}
 				rec(append(h[:len(h):len(h)], o))
 			}
+		}
+		if !t.Thorough && ops[first].d != 0 {
+			rec2 := func() { // a history of length 1 only
+				o := ops[first]
+				t.Case(fmt.Sprintf("history warm=%v [%s]", warm, o.String()), false, func() (string, *engine.Fail) {
+					if f := c13RunHistory([]c13Op{o}, warm); f != nil {
+						return "", f
+					}
+					return "deterministic", nil
+				})
+			}
+			rec2()
+			return
 		}
 		rec([]c13Op{ops[first]})
 	case "paths":
